@@ -6,7 +6,11 @@ import (
 	"encoding/json"
 	"fmt"
 	"os"
+	"os/exec"
+	"runtime"
 	"sort"
+	"strings"
+	"sync"
 	"time"
 
 	"github.com/free5gc/go-upf/internal/verif/vsched"
@@ -21,19 +25,19 @@ type Report struct {
 }
 
 type ScenarioReport struct {
-	Name        string             `json:"name"`
-	Executions  int64              `json:"schedules"`
-	Points      int64              `json:"scheduling_points"`
-	MaxPoints   int                `json:"longest_schedule"`
-	BoundDone   int                `json:"preemption_bound_completed"`
-	Preemptions int                `json:"max_preemptions_taken"`
-	Outcomes    int                `json:"distinct_outcomes"`
-	Exhaustive  bool               `json:"exhaustive"`
-	Truncated   int64              `json:"truncated_schedules"`
-	Pruned      int64              `json:"points_pruned_by_state_key"`
-	Findings    []FindingReport    `json:"findings,omitempty"`
-	Samples     []string           `json:"samples,omitempty"`
-	WallS       float64            `json:"wall_s"`
+	Name        string          `json:"name"`
+	Executions  int64           `json:"schedules"`
+	Points      int64           `json:"scheduling_points"`
+	MaxPoints   int             `json:"longest_schedule"`
+	BoundDone   int             `json:"preemption_bound_completed"`
+	Preemptions int             `json:"max_preemptions_taken"`
+	Outcomes    int             `json:"distinct_outcomes"`
+	Exhaustive  bool            `json:"exhaustive"`
+	Truncated   int64           `json:"truncated_schedules"`
+	Pruned      int64           `json:"points_pruned_by_state_key"`
+	Findings    []FindingReport `json:"findings,omitempty"`
+	Samples     []string        `json:"samples,omitempty"`
+	WallS       float64         `json:"wall_s"`
 }
 
 type FindingReport struct {
@@ -66,9 +70,9 @@ func explore(name string, cfg vsched.Config) ScenarioReport {
 }
 
 // Main: verif-worker(vs) e3 <property> <tier>
-func Main(prop, tier string) int {
+func Main(prop, tier string, only int) int {
 	rep := Report{Property: prop}
-	rep.SelfTestOK = len(vsched.SelfTest()) == 0
+	rep.SelfTestOK = only >= 0 || len(vsched.SelfTest()) == 0 // sub-workers rely on the parent's self-test
 	if !rep.SelfTestOK {
 		fmt.Println("INFRA vsched self-tests failed")
 		return 2
@@ -80,15 +84,86 @@ func Main(prop, tier string) int {
 	if tier == "thorough" {
 		dl = 20 * time.Minute
 	}
+	type job struct {
+		name string
+		cfg  vsched.Config
+	}
+	var jobs []job
 	switch prop {
 	case "C18":
 		for _, sc := range c18Scenarios(tier) {
-			rep.Scenarios = append(rep.Scenarios, explore("S("+sc.P.String()+")", vsched.Config{Bound: sc.Bound, TickBudget: sc.P.Ticks, MaxExec: sc.Max, Deadline: dl / 4, StateKeys: true,
-				Body: c18Body(sc.P), Check: c18Check}))
+			jobs = append(jobs, job{"S(" + sc.P.String() + ")", vsched.Config{Bound: sc.Bound, TickBudget: sc.P.Ticks, MaxExec: sc.Max, Deadline: dl, StateKeys: true,
+				Body: c18Body(sc.P), Check: c18Check}})
+		}
+	case "C17":
+		for _, sc := range c17Scenarios(tier) {
+			jobs = append(jobs, job{"C17(" + sc.P.String() + ")", vsched.Config{Bound: sc.Bound, FireBudget: sc.P.Fire, MaxExec: sc.Max, Deadline: dl, StateKeys: true,
+				Body: c17Body(sc.P), Check: c17Check}})
 		}
 	default:
 		fmt.Printf("INFRA no E3 scenarios for %s\n", prop)
 		return 2
+	}
+	if only >= 0 {
+		// sub-worker: one scenario
+		if only >= len(jobs) {
+			fmt.Println("INFRA no such scenario")
+			return 2
+		}
+		rep.Scenarios = append(rep.Scenarios, explore(jobs[only].name, jobs[only].cfg))
+	} else {
+		// one process per scenario (each owns its address block and its scheduler), at most par at a time
+		par := runtime.NumCPU() / 2
+		if par < 1 {
+			par = 1
+		}
+		res := make([]*Report, len(jobs))
+		sem := make(chan struct{}, par)
+		var wg sync.WaitGroup
+		var mu sync.Mutex
+		bad := ""
+		for i := range jobs {
+			wg.Add(1)
+			go func(i int) {
+				defer wg.Done()
+				sem <- struct{}{}
+				defer func() { <-sem }()
+				cmd := exec.Command("/proc/self/exe", "e3", prop, tier, fmt.Sprint(i))
+				cmd.Env = os.Environ()
+				cmd.Stderr = os.Stderr
+				out, err := cmd.Output()
+				var r *Report
+				for _, l := range strings.Split(string(out), "\n") {
+					if strings.HasPrefix(l, "E3RESULT ") {
+						r = &Report{}
+						if json.Unmarshal([]byte(l[9:]), r) != nil {
+							r = nil
+						}
+					} else if strings.HasPrefix(l, "INFRA") {
+						mu.Lock()
+						bad = l
+						mu.Unlock()
+					}
+				}
+				if r == nil || err != nil {
+					mu.Lock()
+					if bad == "" {
+						bad = fmt.Sprintf("INFRA scenario %d (%s): sub-worker failed: %v", i, jobs[i].name, err)
+					}
+					mu.Unlock()
+					return
+				}
+				res[i] = r
+			}(i)
+		}
+		wg.Wait()
+		if bad != "" {
+			fmt.Println(bad)
+			return 2
+		}
+		for _, r := range res {
+			rep.Scenarios = append(rep.Scenarios, r.Scenarios...)
+		}
 	}
 	b, _ := json.Marshal(rep)
 	fmt.Printf("E3RESULT %s\n", b)
